@@ -7,6 +7,9 @@
 //   sr_referring <secA|secT|secM|secO|secB|srcA|srcT|srcM> <slot> <block: ~ | block slot | $->  => ok [ids]
 //   sr_parentsrc <source slot>                                                          => ok <id|~>
 //   sr_inherited <section slot>                                                         => ok [property ids]
+//   sr_mkalias   <new slot> <parent: block or source slot> <slot> <type xHEX>            => ok <id> <created_at>
+//                (not read-only) creates a source whose NAME is the id of the entity in <slot>: the generator cannot know
+//                ids, and names that are ids are the adversarial input of the lookups by name-or-id
 //
 // filters:  all ~        the overload / default argument without a filter
 //           acc ~        util::AcceptAll<T>()
@@ -154,5 +157,18 @@ DRV_OP(sr_inherited) {
     return guarded([&]() {
         nix::Section s = a[1] == "$-" ? nix::Section() : slot(a[1]).s;
         return idList(s.inheritedProperties());
+    });
+}
+
+DRV_OP(sr_mkalias) {
+    if (a.size() != 5) throw ProtoError("sr_mkalias arity");
+    return guarded([&]() {
+        Ent &p = slot(a[2]);
+        std::string name = strOrIdOf(a[3]), type = unhexStr(a[4]);
+        Ent e; e.kind = 'O';
+        e.o = p.kind == 'B' ? p.b.createSource(name, type) : p.o.createSource(name, type);
+        std::string r = e.o.id() + " " + std::to_string((long long) e.o.createdAt());
+        state().slots[a[1]] = e;
+        return r;
     });
 }
